@@ -259,6 +259,15 @@ def box_data(spec, lv, bid, k):
     fs = spec["data"].get("field_scale")
     if fs:
         out = np.asarray(out, dtype="float64") * fs[k % len(fs)]      # fields of very different magnitudes side by side
+    pl = spec["data"].get("plant")
+    if pl == "nan-fine" and lv >= 1 and (bid + k) % 2 == 0:
+        # a NaN stored in cells of a fine box (lying over finite coarse data): it is data like any other value
+        out = np.array(out, dtype="float64"); n_ = out.size
+        out.flat[0] = np.nan; out.flat[n_ // 2] = np.nan
+    if pl == "fab-bytes" and k >= 1:
+        # a finite value whose eight bytes hold the characters "FAB (" (no FAB header starts there: a header is a whole line)
+        out = np.array(out, dtype="float64")
+        out.flat[1 % out.size] = FAB_VALUE
     fill = spec["data"].get("covered_fill")
     if fill and lv + 1 < len(spec["levels"]):
         lo, hi = spec["levels"][lv][bid]
@@ -326,6 +335,8 @@ def _box_data(spec, lv, bid, k):
     raise ValueError(mode)
 
 
+FAB_VALUE = float(np.frombuffer(b"FAB (\x00\xf0?", dtype="<f8")[0])      # about 1.0
+
 EXTRA_MODES = {}      # payload modes registered by checkers (e.g. thermochemical states for chef)
 
 
@@ -377,8 +388,14 @@ def header_text(spec, nlev=None):
         for lo, hi in spec["levels"][lv]:
             for d in range(nd):
                 L.append(f"{_f(spec['geo_low'][d] + lo[d] * dx[lv][d])} {_f(spec['geo_low'][d] + (hi[d] + 1) * dx[lv][d])}")
-        L.append(f"Level_{lv}/Cell")
+        L.append(level_dir(spec, lv) + "/Cell")
     return "\n".join(L) + "\n"
+
+
+def level_dir(spec, lv):
+    """name of the directory of level `lv`: "level_dir" is a format of `lv` (AMReX lets the writer choose the prefix and the
+    number of digits; the Header records the name of every level directory)"""
+    return spec.get("level_dir", "Level_{lv}").format(lv=lv)
 
 
 def materialize(spec, path, nlev=None):
@@ -394,7 +411,7 @@ def materialize(spec, path, nlev=None):
     sh0 = int(spec.get("idx_shift", 0))
     for lv in range(nlev):
         sh = sh0 * 2 ** lv
-        ldir = os.path.join(path, f"Level_{lv}")
+        ldir = os.path.join(path, level_dir(spec, lv))
         os.makedirs(ldir)
         boxes = spec["levels"][lv]
         lay = spec["layout"][lv]
@@ -425,7 +442,7 @@ def materialize(spec, path, nlev=None):
             for k in sorted({2 * f for f in files} | {2 * f + 2 for f in files}):
                 open(os.path.join(ldir, f"Cell_D_{k:05d}"), "wb").close()
         with open(os.path.join(ldir, "Cell_H"), "w") as ch:
-            ch.write(f"1\n1\n{nf}\n0\n({len(boxes)} 0\n")
+            ch.write(f"1\n1\n{nf}\n{spec.get('ghost_line', '0')}\n({len(boxes)} 0\n")
             for lo, hi in boxes:
                 ch.write(f"(({','.join(str(x + sh) for x in lo)}) ({','.join(str(x + sh) for x in hi)}) ({z}))\n")
             ch.write(f")\n{len(boxes)}\n")
@@ -441,6 +458,21 @@ def materialize(spec, path, nlev=None):
             if not spec.get("cellh_no_final_newline"):
                 ch.write("\n")
     return truth
+
+
+def halving_breaks(digits=15, n=3, nlev=2):
+    """cell sizes x such that, printed with `digits` significant digits per level (x, x/2, x/4 ...), the quotient of the
+    parsed level-0 and finest sizes falls just BELOW the refinement factor (a writer of lower precision than AMReX's 17 digits:
+    the levels' sizes are then no longer exact halves of each other)"""
+    out = []
+    for m in range(3, 6000):
+        x = 1.0 / m          # a domain of unit length cut into m cells: the decimal expansion does not terminate
+        a = float(f"{x:.{digits}g}"); b = float(f"{x / 2 ** (nlev - 1):.{digits}g}")
+        if a / b < 2 ** (nlev - 1):
+            out.append(x)
+            if len(out) == n:
+                break
+    return out
 
 
 def ulp_below(n):
